@@ -30,7 +30,7 @@
 (*      _restore_repository_on_error)                                      *)
 (*                                                                         *)
 (* Switches.  The value "as the documentation says" is listed first; the   *)
-(* other value is either what the PINNED tree does (three documented       *)
+(* other value is either what the PINNED tree does (four documented        *)
 (* promises it does not keep - the configuration with the pinned values is *)
 (* refuted by TLC, and the same deviations are found on the real code by   *)
 (* the binding) or a realistic wrong variant (regression configurations).  *)
@@ -48,11 +48,14 @@
 (*                            without _restore_repository_on_error         *)
 (*   NsEmptyQuals     TRUE  | FALSE variant: remove_namespace ignores the  *)
 (*                            qualifier store                              *)
+(*   AddTypeError     TRUE  | FALSE pinned: add_cimobjects ends in         *)
+(*                            `assert False` for an object of another type *)
+(*                            (AssertionError; nothing at all under -O)    *)
 (***************************************************************************)
 EXTENDS QualRepo, SequencesExt
 
 CONSTANTS UpdateCopies, GuardDefaultNs, CompileReplaces, GetCopies, UseScan,
-          AddRollback, NsEmptyQuals
+          AddRollback, NsEmptyQuals, AddTypeError
 
 AsSeq(S) == SetToSeq(S)
 
@@ -119,8 +122,12 @@ AddLoop(st, ns, items, i) ==
 ImplAddObj(st, c) ==
   IF Eff(c.ns) \notin st.live THEN R3(Err(E_INVALID_NAMESPACE), st, {})
   ELSE LET r == AddLoop(st, Eff(c.ns), c.items, 1) IN
-       IF r[1] THEN R3(Ok(NoRes), r[2], {})
-       ELSE R3(Err(P_VALUEERROR), IF AddRollback THEN st ELSE r[2], {})
+       IF ~r[1]
+       THEN R3(Err(P_VALUEERROR), IF AddRollback THEN st ELSE r[2], {})
+       ELSE IF c.arg # "ok"       \* the foreign object comes last in the list
+       THEN R3(Err(IF AddTypeError THEN P_TYPEERROR ELSE P_OTHER),
+               IF AddRollback THEN st ELSE r[2], {})
+       ELSE R3(Ok(NoRes), r[2], {})
 
 (* compile_mof_string: p_mp_setQualifier -> SetQualifier per declaration    *)
 RECURSIVE SetLoop(_, _, _, _)
